@@ -305,6 +305,33 @@ fn random_history(prop: &str, coin: &str, n_tx: usize, reuse: bool, rng: &mut Rn
     finish(prop, "random", coin, hist, rng)
 }
 
+/// outputs created early, a long stretch of unrelated blocks, spends (and survivors) at the end
+fn long_gap_history(prop: &str, coin: &str, rng: &mut Rng) -> Scenario {
+    let keys = key_pool(4, rng);
+    let mut hist = Hist::new();
+    for _ in 0..rng.usize(2, 6) {
+        let n = rng.usize(1, 3);
+        let tx = create_tx(&mut hist, coin, &keys, n, rng, vec![], false);
+        hist.add(tx, true, coin);
+        if rng.coin() {
+            hist.new_block();
+        }
+    }
+    let gap = *rng.pick(&[101usize, 145, 513, 1009, 2017]);
+    for _ in 0..gap {
+        hist.new_block(); // finish() fills empty blocks with a neutral coinbase
+    }
+    let early: Vec<(Vec<u8>, u32)> = hist.live.clone();
+    for p in early.iter().take(early.len() / 2 + 1) {
+        let ins = vec![Hist::spend_input(p, rng)];
+        let tx = create_tx(&mut hist, coin, &keys, 1, rng, ins, false);
+        hist.add(tx, true, coin);
+    }
+    let mut scn = finish(prop, "long-gap", coin, hist, rng);
+    scn.layouts = vec![single_file_layout(scn.chain.len())];
+    scn
+}
+
 fn prefix_runs(scn: &mut Scenario, cb: &[&str], rng: &mut Rng, all_prefixes: bool) {
     let t = scn.chain.len() as u64 - 1;
     let mut ends: Vec<Option<u64>> = vec![None];
@@ -413,6 +440,15 @@ impl Prop for C07 {
             return Ok(());
         }
         let coin = *rng.pick(&COINS);
+        if rng.chance(1, 12) {
+            let mut scn = long_gap_history("C07", coin, rng);
+            let mut r = RunSpec::new("unspentcsvdump");
+            r.threads = 2;
+            scn.runs = vec![r];
+            h.stats.probe("long_gap_between_create_and_spend");
+            h.check(&mut scn)?;
+            return Ok(());
+        }
         let n = if rng.chance(1, 5) { rng.usize(60, 200) } else { rng.usize(5, 40) };
         let mut scn = random_history("C07", coin, n, false, rng);
         let small = scn.chain.len() <= 8;
@@ -501,6 +537,16 @@ impl Prop for C08 {
             return Ok(());
         }
         let coin = *rng.pick(&COINS);
+        if rng.chance(1, 12) {
+            let mut scn = long_gap_history("C08", coin, rng);
+            for cb in ["unspentcsvdump", "balances"] {
+                let mut r = RunSpec::new(cb);
+                r.threads = 2;
+                scn.runs.push(r);
+            }
+            h.check(&mut scn)?;
+            return Ok(());
+        }
         let n = if rng.chance(1, 5) { rng.usize(60, 200) } else { rng.usize(5, 40) };
         let mut scn = random_history("C08", coin, n, true, rng);
         let small = scn.chain.len() <= 6;
